@@ -271,6 +271,24 @@ class DataGen(object):
         if r.random() < 0.5:
             self.add(("let", ("var", "V$"), tg, False), P(self.tag(), ";", ("fn", "LEN", [("var", "V$")]), ";", ("fn", "INSTR", [n(30), ("var", "V$"), ("str", long1[-2:])])))
 
+    def block_openstr(self):
+        """A string constant whose closing quote is left out (legal at the very end of a line): the text up to the line end,
+        trailing blanks included, is the value - for scalar and for array-element targets alike."""
+        r = self.r
+        text = r.choice(["HELLO", "X", "A B ", "TWO  ", "Q:R", "1,2", "'", "(*"])
+        which = r.random()
+        if which < 0.35:
+            tg = ("var", r.choice(["O1$", "O2$"]))
+        elif which < 0.7:
+            tg = ("arr", r.choice(["OI$", "OJ$"]), [n(r.choice([0, 3, 10]))])           # never DIMensioned
+        else:
+            if not any(d[0] == "OD$" for d in self.dims_line):
+                self.dims_line.append(("OD$", [4, 2], ["4", "2"]))
+            tg = ("arr", "OD$", [n(r.choice([0, 4])), n(r.choice([0, 2]))])
+        first = [("let", ("var", "A"), ("bin", "+", ("var", "A"), n(0)), False)] if r.random() < 0.5 else []
+        self.add(*(first + [("let", tg, ("ostr", text), r.random() < 0.3)]))
+        self.add(P(self.tag(), ";", tg, ";", ("str", "|"), ";", ("fn", "LEN", [tg])))
+
     def block_uninit(self):
         # reads of never-assigned variables / elements: 0 and "" in Color BASIC
         r = self.r
@@ -281,7 +299,7 @@ class DataGen(object):
         r = self.r
         self.uses_g = False
         self.add(("let", ("var", "A"), n(r.randint(0, 5)), False), ("let", ("var", "A$"), ("str", r.choice(["Q", "HI", ""])), False))
-        kinds = ["array", "data", "print", "input", "strfn", "uninit", "capacity"]
+        kinds = ["array", "data", "print", "input", "strfn", "uninit", "capacity", "openstr"]
         for _ in range(nblocks):
             k = r.choice(kinds)
             if k == "array" and not (self.arr_names and self.sarr_names):
